@@ -21,6 +21,8 @@ def run(res):
     asts = [astgen.gen_file(rng) for _ in range(count)]
     if thorough:
         asts += [astgen.gen_file(rng, max_depth=26) for _ in range(6)]
+    # files ending as tightly as the format allows after a deep code tree
+    asts += [astgen.gen_tight_end_file(rng) for _ in range(400 if thorough else 40)]
     eq = [astgen.specenc_query(a) for a in asts]
     ea = lib.run_model(eq)
     rd, exp, meta = [], [], []
